@@ -7,6 +7,16 @@ ALL = ["C%02d" % i for i in range(1, 21)]
 
 # id -> (level category, engine, technique, level text, level note, design ref)
 CLAIMED = {
+    "C17": ("exploration", "I",
+            "bounded-exhaustive enumeration of provider records (every chain-level list of <=2/3 entries over {main,X,Y} x 4 metadata kinds, every contextual list of <=2 entries, override, two contextual sets, list-length mismatches, direct and via JSON) x 6 lookups, compared with an independent specification function",
+            "Every record of the stated alphabet is loaded into a real ProviderCache from a fake source and GetResults is compared result by result with a specification written from the statement; mismatched list lengths are required only not to panic. The skip/substitute/override rules interact per entry, so only the full product reaches the combinations where they differ.",
+            "Specification function is the oracle (trusted, 30 lines); providers limited to 3 identities, context IDs to 2.",
+            "DESIGN.md 6/C17"),
+    "C18": ("exploration", "I",
+            "bounded-exhaustive enumeration of (request, signing key, named provider) over 4 key types, every single-bit flip and field-level replacement of the sealed envelope, cross-domain and cross-reader replays, against an accept/reject specification",
+            "Accept iff envelope intact, sealed for the reader's domain and payload type, and signer's peer ID equals the provider named; checked on every enumerated case with the real constructors and readers. Exhaustive over signer/named pairs is what reaches the foreign-signer case.",
+            "libp2p record envelopes and crypto are trusted; alterations judged semantically (same decoded envelope = no alteration); two identities per key type.",
+            "DESIGN.md 6/C18"),
     "C12": ("exploration", "I",
             "bounded-exhaustive enumeration: payload lengths x passphrases; every truncation and single-bit flip of each ciphertext; every nonce length; every call sequence up to depth 3/5 over encrypt/decrypt/second-hash (history determinism); every small index through DHashClient.Find incl. every truncation of every stored value",
             "Round trip, determinism and fail-closed are checked on every point of the stated grids against the obvious specification (decrypt(encrypt(x)) = x, equal inputs equal bytes, tampered input => error, never data, never panic); the find workflow is compared with the plaintext index for all 64 indexes. Exhaustive over lengths is what reaches the short-input and wrong-nonce cases a sampled test misses.",
